@@ -9,9 +9,12 @@ namespace D2P
 def overwriteTypes : List Str := contentTypes ++ [lit "relationships"]
 
 /-- `{x.path: x for x in self.files if x.Type in overwrite and x.path in members}`: one `File`
-per member path, the last one wins, first position kept -/
+per member path, the first one wins -/
+def addFirst (d : Dict Str Rel) (f : Rel) : Dict Str Rel :=
+  if d.any (·.1 == f.path) then d else d ++ [(f.path, f)]
+
 def saveTargets (a : Archive) (files : List Rel) : Dict Str Rel :=
-  (files.filter fun f => overwriteTypes.contains f.type && a.namelist.contains f.path).foldl (fun d f => Dict.set d f.path f) []
+  (files.filter fun f => overwriteTypes.contains f.type && a.namelist.contains f.path).foldl addFirst []
 
 /-- `_copy_but(in_zip, out_zip, exclusions)`: every directory entry whose name is not excluded,
 with the content `in_zip.read(name)` returns for that name -/
